@@ -1190,20 +1190,29 @@ func excludedCfg(c Config) bool {
 
 // ---------------------------------------------------------------- cross-shard throttle for 4 GiB Go-heap buffers
 
-func withBigSlot(fn func()) {
-	dir := filepath.Dir(evid.WorkDir())
-	sh, _ := evid.Shard()
-	p := filepath.Join(dir, fmt.Sprintf("c14-bigslot-%d", sh%3))
-	fd, err := -1, error(syscall.ENOENT)
+// withBigSlot runs fn while holding one of two cross-shard slots (at most two shards hold a
+// 4 GiB Go-heap buffer at a time, ~5 GiB resident each); exclusive takes both (the thorough
+// re-allocating grow needs ~10 GiB resident).
+func withBigSlot(exclusive bool, fn func()) {
+	const slots = 2
 	if os.Getenv("VERIF_WORK") != "" { // under the driver: the parent of the shard's work dir is per run and removed afterwards
-		fd, err = syscall.Open(p, syscall.O_CREAT|syscall.O_RDWR, 0o644)
-	}
-	if err == nil {
-		syscall.Flock(fd, syscall.LOCK_EX)
-		defer func() {
-			syscall.Flock(fd, syscall.LOCK_UN)
-			syscall.Close(fd)
-		}()
+		dir := filepath.Dir(evid.WorkDir())
+		sh, _ := evid.Shard()
+		want := []int{sh % slots}
+		if exclusive {
+			want = []int{0, 1}
+		}
+		for _, k := range want {
+			fd, err := syscall.Open(filepath.Join(dir, fmt.Sprintf("c14-bigslot-%d", k)), syscall.O_CREAT|syscall.O_RDWR, 0o644)
+			if err != nil {
+				continue
+			}
+			syscall.Flock(fd, syscall.LOCK_EX)
+			defer func(fd int) {
+				syscall.Flock(fd, syscall.LOCK_UN)
+				syscall.Close(fd)
+			}(fd)
+		}
 	}
 	fn()
 	debug.FreeOSMemory()
@@ -1588,7 +1597,7 @@ func TestHistories(t *testing.T) {
 		t.Skip()
 	}
 	probes()
-	evid.Check(t, "histories", evid.Scale(16000, 1200000), func(t *rapid.T) {
+	evid.Check(t, "histories", evid.Scale(12000, 1200000), func(t *rapid.T) {
 		c, _ := genCase(t)
 		evid.Journal(c)
 		f, m, skipped := runCase(c)
@@ -1838,7 +1847,8 @@ func TestBig(t *testing.T) {
 			evid.Label("excluded-compiler-65536-pages", 1)
 			continue
 		}
-		withBigSlot(func() {
+		reallocates := c.Cfg.Alloc == "default" && !c.Cfg.CapMax && !c.Cfg.Shared && c.Cfg.Min < maxPages
+		withBigSlot(reallocates, func() {
 			evid.Journal(c)
 			f, m, skipped := runCase(c)
 			if f != nil {
